@@ -322,7 +322,7 @@ Proof. intros F r data off H. unfold find. rewrite H. reflexivity. Qed.
 Definition rx_foo3_dollar : rx := mkRx
   (mkProg [ mkInst IFail 0 0 [] []; mkInst IRune1 2 0 [102%N] []; mkInst IRune1 3 0 [111%N] []; mkInst IRune1 4 0 [111%N] [];
             mkInst IRune1 5 0 [51%N] []; mkInst IEmpty 6 8 [] []; mkInst IMatch 0 0 [] [] ] 1)
-  2 (mkFacts [102; 111; 111; 51]%N [102; 111; 111; 51]%N 4%N 4%N).
+  2 (mkFacts [102; 111; 111; 51]%N [102; 111; 111; 51]%N 4%N 4%N) [None].
 Definition payload_foo3_bar : list N := [102; 111; 111; 51; 32; 98; 97; 114]%N.
 
 Lemma find_unguarded_refuted :
